@@ -168,7 +168,37 @@ def snapshot(root):
     return snap
 
 
-def run_real(ctx, fd, fmt, msh_only, name, mkdirs, present, overwrite, prepare=None):
+def earlier_outputs(ctx, fd, fmt, msh_only, name, mkdirs, stem_prefix=''):
+    """bytes of the files an EARLIER successful write of femio itself leaves at the candidate paths: written into an empty
+    directory under `stem_prefix + stem` and mapped back to the paths of `name` (so that `stem_prefix='fine_'` gives the
+    output of another model whose names contain the names of this one)"""
+    root = ctx.tmp / 'e'
+    if root.exists():
+        shutil.rmtree(root)
+    root.mkdir()
+    for d in (mkdirs or []):
+        (root / d).mkdir(parents=True)
+    pth = Path(name)
+    other = str(pth.parent / (stem_prefix + pth.name)) if stem_prefix else name
+    cwd = os.getcwd()
+    os.chdir(root)
+    try:
+        with contextlib.redirect_stdout(io.StringIO()):
+            fd.write(fmt, other, overwrite=False, **({'write_msh_only': True} if msh_only else {}))
+    except Exception:
+        pass
+    finally:
+        os.chdir(cwd)
+    out = {}
+    for q, b in snapshot(root).items():
+        qq = Path(q)
+        back = str(qq.parent / qq.name[len(stem_prefix):]) if stem_prefix and qq.name.startswith(stem_prefix) else q
+        out[back] = b
+    shutil.rmtree(root)
+    return out
+
+
+def run_real(ctx, fd, fmt, msh_only, name, mkdirs, present, overwrite, prepare=None, content=None):
     root = ctx.tmp / 'w'
     if root.exists():
         shutil.rmtree(root)
@@ -177,7 +207,7 @@ def run_real(ctx, fd, fmt, msh_only, name, mkdirs, present, overwrite, prepare=N
         (root / d).mkdir(parents=True)
     for p in present:
         (root / p).parent.mkdir(parents=True, exist_ok=True)
-        (root / p).write_bytes(b'OLD:' + p.encode())
+        (root / p).write_bytes(content[p] if content and p in content else b'OLD:' + p.encode())
     if prepare is not None:
         fd = prepare(root)
     before = snapshot(root)
@@ -343,6 +373,30 @@ def oracle_only_stream(ctx):
                 ctx.case(('rich', fmt, msh_only, name, tuple(present)), sample={**case, 'raised': err}, nontrivial=True)
                 ctx.count('oracle-only:rich-object:' + (err or 'ok'))
                 _oracle(ctx, 'rich-object:' + kind_of(fmt, name, '') , fmt, name, case, err, before, after)
+    # (a') pre-existing files with REALISTIC content: what an earlier write of femio left there, hand-edited afterwards
+    #      (a line appended), or the output of another model whose file names contain these names (stem 'fine_' + stem)
+    fd0 = make_fem()
+    for fmt, msh_only in FORMATS:
+        for sclass, name, mkdirs in spellings(fmt)[:2]:
+            cand, _ = candidates(fmt, name)
+            for mode, prefix in (('earlier-output-edited', ''), ('other-model-output', 'fine_')):
+                try:
+                    early = earlier_outputs(ctx, fd0, fmt, msh_only, name, mkdirs, prefix)
+                except Exception:
+                    ctx.count(f'oracle-only:{mode}:prepare-failed')
+                    continue
+                content = {q: b + (b'\n# edited by hand\n' if mode == 'earlier-output-edited' else b'') for q, b in early.items()}
+                cand2 = [c for c in cand] + [q for q in content if q not in cand]
+                subsets = [s for r in range(1, len(cand2) + 1) for s in itertools.combinations(cand2, r)]
+                if ctx.quick:
+                    subsets = [s for s in subsets if len(s) in (1, 2, len(cand2))]
+                for present in subsets:
+                    err, before, after = run_real(ctx, fd0, fmt, msh_only, name, mkdirs, list(present), False, content=content)
+                    case = {'stream': mode, 'format': fmt, 'write_msh_only': msh_only, 'spelling': sclass, 'name': name,
+                            'pre_existing': list(present), 'overwrite': False}
+                    ctx.case((mode, fmt, msh_only, name, tuple(present)), sample={**case, 'raised': err}, nontrivial=True)
+                    ctx.count(f'oracle-only:{mode}:' + (err or 'ok'))
+                    _oracle(ctx, mode, fmt, name, case, err, before, after)
     # (b) default name
     def prepare(root):
         (root / 'in').mkdir(exist_ok=True)
@@ -373,11 +427,20 @@ def oracle_only_stream(ctx):
 
 def replay(ctx, obj):
     stubs.install()
-    fd = make_fem()
     case = obj['input']
+    stream = case.get('stream')
+    fd = make_rich() if stream == 'rich-object' else make_fem()
+    if stream == 'default-name':
+        return {'case': case, 'note': 'default-name stream: re-run the check to reproduce', 'fails': False}
     cand, ctrl = candidates(case['format'], case['name'])
     sp = {s[1]: s[2] for s in spellings(case['format'])}
+    mk = sp.get(case['name'], [])
+    content = None
+    if stream in ('earlier-output-edited', 'other-model-output'):
+        early = earlier_outputs(ctx, fd, case['format'], case['write_msh_only'], case['name'], mk,
+                                '' if stream == 'earlier-output-edited' else 'fine_')
+        content = {q: b + (b'\n# edited by hand\n' if stream == 'earlier-output-edited' else b'') for q, b in early.items()}
     err, before, after = run_real(ctx, fd, case['format'], case['write_msh_only'], case['name'],
-                                  sp.get(case['name'], []), case['pre_existing'], case['overwrite'])
+                                  mk, case['pre_existing'], case['overwrite'], content=content)
     changed = [p for p, b in before.items() if after.get(p) != b]
     return {'case': case, 'raised': err, 'changed_existing_files': changed, 'fails': bool(changed) and not case['overwrite']}
